@@ -1,5 +1,8 @@
 import SJ.Props.C03
 import SJ.Proofs.ToValueImage
+import SJ.Proofs.ProgSide
+import SJ.Props.C01
+import SJ.Props.C02Map
 /-!
 # C15 — `to_value` agrees with the text serialiser
 
@@ -18,9 +21,11 @@ branches, `SJ/Proofs/MkObj.lean`: the map built by successive insertion is the d
   configuration `cfg` (preserve_order, float_roundtrip, arbitrary_precision), any `ext` with `ExtOK ext`;
 * the statement's exceptions as decidable predicates: `widenF32` (f32 held as f64 in a `Value`),
   `has128OutOfRange`, `floatsRT` (f64 equality needs the printed text to read back as the same double);
-* **pinned-tree deviation** `hasSomeKey`: `value::ser::MapKeySerializer::serialize_some` rejects where the
-  text `MapKeySerializer` forwards (`c15_some_key_disagrees`, `c15_key_dispatch`). The agreement theorems
-  are proved for programs without `Some(_)` keys; for those with one the property is false on this tree.
+* `Some(_)` keys: both key serializers forward `serialize_some` (`c15_key_dispatch`; the former deviation of
+  `value::ser::MapKeySerializer` is fixed in the tree), so no theorem excludes them;
+* the parse of the printed text: `parserComplete` (C01 completeness + the map lemma of C02) and `c15_agree`,
+  with the program-level side conditions `SVal.nest p ≤ 127` and (byte sources) `SVal.utf8OK p` of
+  `SJ/Spec/ProgramSide.lean`, related to the printed tree in `SJ/Proofs/ProgSide.lean`.
 -/
 namespace SJ.Props.C15
 open SJ SJ.Spec.Grammar SJ.Spec.Denote SJ.Spec.Program SJ.Spec.Image SJ.Spec.ValueOf
@@ -256,9 +261,7 @@ example : (match image ext0 (widenF32 false progB) with | .ok d => valueOfImage 
     `t` that denotes the image, and the `Value` this tree denotes under the parser's rules
     (`Spec.Canon.canon`: property C02's right-hand side) is exactly the result of `to_value`.
     Missing for "equals the Value obtained by *parsing* `to_string(t)`": that the parser returns
-    `canon t` on every derivable text within its side conditions — parser completeness/soundness
-    (C01/C02, proved on another branch); see `c15_agree_of_parser` for the conclusion under that
-    hypothesis, named `ParserComplete`. -/
+    `canon t` on every derivable text within its side conditions — supplied by `c15_agree` below. -/
 theorem c15_agree_partial (cfg : Cfg) (ext : Ext) (hext : ExtOK ext) (p : SVal) (hp : p.wf = true)
     (hs : inScope p = true)
     (hf : floatsRT (specCfg cfg) ext (widenF32 cfg.ap p) = true) (v : JV) (h : toValue cfg ext p = .ok v) :
@@ -276,17 +279,26 @@ theorem c15_agree_partial (cfg : Cfg) (ext : Ext) (hext : ExtOK ext) (p : SVal) 
     rw [hd] at hd'; cases hd'
     exact ⟨bufs, d, rfl, hd, hder, hden, by rw [canon_cstOf]; exact hv⟩
 
-/-- the named hypothesis: on a derivable text whose tree meets the acceptance side conditions (depth,
-    surrogate pairing, number range) the `&str` parser returns the value the tree denotes. This is the
-    completeness half of C01 together with C02 (`c02_denotes`), being proved on the parser branches. -/
+/-- the parser property the agreement rests on: on a derivable text whose tree meets the acceptance side
+    conditions (depth, surrogate pairing, number range) the `&str` parser returns the value the tree
+    denotes. It is a theorem: `parserComplete` below. -/
 def ParserComplete (cfg : Cfg) : Prop :=
   ∀ (bs : Bytes) (t : CST) (v : JV), Derives bs t → Spec.Canon.sideConditions (specCfg cfg) false t = true →
     Spec.Canon.canon (specCfg cfg) t = some v → parseTop ⟨cfg, .str, .value⟩ bs = .ok v
 
-/-- **C15 (agreement), conditional on `ParserComplete`.** Under the parser hypothesis, and when the printed
-    tree is within the parser's side conditions (nesting ≤ 127 unless the limit is off; the other two
-    conditions hold for every printed tree whose numbers are in range), parsing `to_string` of the
-    (f32-widened) data returns exactly `to_value` of the data. -/
+/-- **`ParserComplete` holds in every configuration**: completeness of the parser (C01,
+    `c01_complete_sideConditions`) and the map-level lemma of C02 (`c02_canonM_eq_canon`: the object the
+    machine builds by successive insertion is the declarative one). -/
+theorem parserComplete (cfg : Cfg) : ParserComplete cfg := by
+  intro bs t v hder hside hcanon
+  obtain ⟨v', hp, hc⟩ := C01.c01_complete_sideConditions ⟨cfg, .str, .value⟩ rfl bs t
+    ⟨[], bs, [], by simp, by decide, by decide, hder⟩ hside
+  rw [C02Map.c02_canonM_eq_canon, hcanon] at hc
+  cases hc; exact hp
+
+/-- **C15 (agreement), from the parser property.** When the printed tree is within the parser's side
+    conditions, parsing `to_string` of the (f32-widened) data returns exactly `to_value` of the data.
+    (`c15_agree` discharges `hparse` and `hside` from program-level hypotheses.) -/
 theorem c15_agree_of_parser (cfg : Cfg) (hparse : ParserComplete cfg) (ext : Ext) (hext : ExtOK ext) (p : SVal)
     (hp : p.wf = true) (hs : inScope p = true)
     (hf : floatsRT (specCfg cfg) ext (widenF32 cfg.ap p) = true) (v : JV) (h : toValue cfg ext p = .ok v)
@@ -296,6 +308,67 @@ theorem c15_agree_of_parser (cfg : Cfg) (hparse : ParserComplete cfg) (ext : Ext
       parseTop ⟨cfg, .str, .value⟩ bufs.flatten = .ok v := by
   obtain ⟨bufs, d, hb, hd, hder, _, hc⟩ := c15_agree_partial cfg ext hext p hp hs hf v h
   exact ⟨bufs, hb, hparse _ _ _ hder (hside d hd) hc⟩
+
+/-- **C15 (agreement).** For every well-formed program within the Rust types, in every configuration and
+    from every input source: if `to_value` succeeds, `to_string` of the f32-widened program succeeds and
+    *parsing* its output returns exactly the `to_value` result. Hypotheses, all on the program:
+    `inScope` (integers fit their type, no `numberLit`), the value printed nests at most 127 deep
+    (`SVal.nest`; not needed when the recursion limit is off), the float proviso `floatsRT`, and — for
+    byte sources, which check it — the Rust string invariant `SVal.utf8OK` (every `&str` handed over is
+    UTF-8, every `char` a scalar value). No hypothesis on the parser, on keys (`Some(_)` keys included)
+    or on the printed tree remains: surrogate pairing holds because the serializer prints no `\u`
+    escape but `\u00XX`, the numeric range because the value exists. -/
+theorem c15_agree (cfg : Cfg) (src : Src) (ext : Ext) (hext : ExtOK ext) (p : SVal)
+    (hp : p.wf = true) (hs : inScope p = true)
+    (hdepth : cfg.limitOff = true ∨ p.nest ≤ 127)
+    (hutf : src ≠ .str → p.utf8OK = true)
+    (hf : floatsRT (specCfg cfg) ext (widenF32 cfg.ap p) = true) (v : JV) (h : toValue cfg ext p = .ok v) :
+    ∃ bufs, serCompact ext (widenF32 cfg.ap p) = .ok bufs ∧
+      parseTop ⟨cfg, src, .value⟩ bufs.flatten = .ok v := by
+  obtain ⟨bufs, d, hb, hd, hder, _, hc⟩ := c15_agree_partial cfg ext hext p hp hs hf v h
+  refine ⟨bufs, hb, ?_⟩
+  rw [← C02Map.c02_canonM_eq_canon] at hc
+  obtain ⟨v', hpv, hc'⟩ := C01.c01_complete_value ⟨cfg, src, .value⟩ rfl bufs.flatten (cstOf d)
+    ⟨[], bufs.flatten, [], by simp, by decide, by decide, hder⟩
+    (hdepth.imp id fun hn => by
+      rw [ProgSide.depth_image ext _ d hd, ProgSide.nest_widen]; exact hn)
+    (ProgSide.surrogatesPaired_cstOf d)
+    (fun hne => ProgSide.stringsUtf8_cstOf d
+      (ProgSide.image_utf8 ext hext _ d (by rw [ProgSide.utf8OK_widen]; exact hutf hne) hd))
+    (RoundTrip.numbersInRange_of_canonM cfg _ v hc)
+  rw [hc] at hc'; cases hc'; exact hpv
+
+/-- `progB` meets the hypotheses (it nests 3 deep: `{"0":{"V":{}}}`), so the parse of its text is its
+    `to_value`, from a `&str` and from a byte slice, sorted and in insertion order -/
+example : progB.nest = 3 ∧ progB.utf8OK = true ∧
+    (∃ bufs, serCompact ext0 (widenF32 false progB) = .ok bufs ∧
+      parseTop ⟨{}, .slice, .value⟩ bufs.flatten = .ok (.obj [([0x30], .obj [([0x56], .obj [])]),
+        ([0x61], .arr [.num (.pos 7), .arr [.num (.pos 255)]]), ([0x62], .num (.neg (-3)))])) ∧
+    (∃ bufs, serCompact ext0 (widenF32 false progB) = .ok bufs ∧
+      parseTop ⟨{ po := true }, .str, .value⟩ bufs.flatten = .ok (.obj [([0x62], .num (.neg (-3))),
+        ([0x61], .arr [.num (.pos 7), .arr [.num (.pos 255)]]), ([0x30], .obj [([0x56], .obj [])])])) :=
+  ⟨rfl, rfl,
+   c15_agree {} .slice ext0 ext0_ok progB rfl rfl (Or.inr (by decide)) (fun _ => rfl) (by decide +kernel) _ rfl,
+   c15_agree { po := true } .str ext0 ext0_ok progB rfl rfl (Or.inr (by decide)) (fun _ => rfl)
+     (by decide +kernel) _ rfl⟩
+
+/-- a `Some(_)` key and a lone-surrogate-looking string `\ud800` (six plain characters: the backslash is
+    escaped on output, so no `\u` escape is printed) -/
+example : ∃ bufs, serCompact ext0 (.map none [(.some (.str [0x6b]), .str [0x5c, 0x75, 0x64, 0x38, 0x30, 0x30])]) = .ok bufs ∧
+    parseTop ⟨{}, .reader, .value⟩ bufs.flatten = .ok (.obj [([0x6b], .str [0x5c, 0x75, 0x64, 0x38, 0x30, 0x30])]) :=
+  c15_agree {} .reader ext0 ext0_ok (.map none [(.some (.str [0x6b]), .str [0x5c, 0x75, 0x64, 0x38, 0x30, 0x30])])
+    rfl rfl (Or.inr (by decide)) (fun _ => rfl) rfl _ rfl
+
+/-- the depth hypothesis is needed: 128 nested newtype variants print `{"V":{"V":…null…}}` nesting 128
+    deep, which `to_value` builds but the parser rejects at the 128th `{` -/
+def progDeep : SVal := Nat.repeat (SVal.newtypeVariant [0x56]) 128 .unit
+
+example : progDeep.nest = 128 ∧ inScope progDeep = true ∧
+    (match toValue {} ext0 progDeep with | .ok _ => true | .error _ => false) = true ∧
+    (match serCompact ext0 progDeep with
+     | .ok bufs => (parseTop ⟨{}, .str, .value⟩ bufs.flatten).isErr .RecursionLimitExceeded 636
+     | .error _ => false) = true := by
+  refine ⟨by decide +kernel, by decide +kernel, by decide +kernel, by decide +kernel⟩
 
 /-- `progB`: the text `to_string` prints for the widened program, and the model *parser* run on it returns
     the `to_value` result — in the default and the preserve_order configuration (the instance of
